@@ -62,7 +62,7 @@ for d in sorted(glob.glob(os.path.join(ROOT, "seeded", "*"))):
     if verdict == "missed" and others:
         verdict = "CAUGHT by " + "+".join(others)
         r = res[others[0]]
-        n_c += 1; n_m -= 1
+        n_c += 1
     n_c += verdict == "CAUGHT"; n_m += verdict == "missed"
     needs = str(meta.get("what_it_needs_to_manifest", meta.get("title", ""))).replace("\n", " ").replace("|", "/")[:260]
     first = str(r.get("first", "")).replace("|", "/").replace("\n", " ")[:160]
